@@ -1,5 +1,6 @@
 //! C13 — VF2 isomorphism functions against the definition of (induced sub)graph isomorphism.
 
+use crate::agraph::{small_graph, small_graph_count};
 use crate::engine::*;
 use crate::util::{perm_from_keys, pick};
 use petgraph::algo::{
@@ -385,12 +386,55 @@ pub fn run(c: &Case) -> Outcome {
     }
 }
 
+/// bounded-exhaustive scope: every ordered pair of labelled digraphs on 1..=3 nodes and every pair of
+/// labelled undirected graphs on 1..=4 nodes (loops included, one node / edge label); the thorough
+/// tier adds every digraph on 4 nodes against every digraph on 1..=2 nodes
+fn enum_count(tier: Tier) -> u64 {
+    let d = small_graph_count(3, 0);
+    let u = small_graph_count(0, 4);
+    d * d + u * u + if tier == Tier::Thorough { (1u64 << 16) * small_graph_count(2, 0) } else { 0 }
+}
+fn enum_make(_tier: Tier, i: u64) -> Case {
+    let d = small_graph_count(3, 0);
+    let u = small_graph_count(0, 4);
+    let (a, b) = if i < d * d {
+        (small_graph(i / d, 3, 0).unwrap(), small_graph(i % d, 3, 0).unwrap())
+    } else if i < d * d + u * u {
+        let j = i - d * d;
+        (small_graph(j / u, 0, 4).unwrap(), small_graph(j % u, 0, 4).unwrap())
+    } else {
+        let j = i - d * d - u * u;
+        let small = small_graph_count(2, 0);
+        ((true, 4, j / small), small_graph(j % small, 2, 0).unwrap())
+    };
+    // the larger graph is the target
+    let (g1, g0) = if a.1 >= b.1 { (a, b) } else { (b, a) };
+    Case {
+        directed: g1.0,
+        loops: true,
+        kind: 0,
+        n1: g1.1 as u8,
+        adj1: g1.2,
+        n0: g0.1 as u8,
+        adj0: g0.2,
+        subset: 0,
+        keys0: vec![0; 8],
+        keys1: vec![0; 8],
+        sel: (0, 0, 0),
+        nw: vec![0; 16],
+        ew: 0,
+        npred: 0,
+        epred: 0,
+        alphabet: 1,
+    }
+}
+
 pub fn property() -> Property {
     Property {
         id: "C13",
-        rule: "pairs of simple directed/undirected graphs (optional self-loops, n0 <= n1 <= 6 quick) with node weights from a 1-3 letter and edge weights from a 2 letter alphabet: independent pairs, relabeled induced subgraphs (positive), one-pair toggles and one-weight changes of those (near misses), degree-preserving 2-switches; predicates always-true / equality / asymmetric <=; every answer compared with exhaustive enumeration of injective maps, the iterator's output compared as a set with duplicate detection, and everything repeated after relabeling both arguments; non-trivial = both graphs >= 3 nodes and the answer not decided by the node/edge-count pre-checks; distinct by case fingerprint",
+        rule: "pairs of simple directed/undirected graphs (optional self-loops, n0 <= n1 <= 6 quick) with node weights from a 1-3 letter and edge weights from a 2 letter alphabet: independent pairs, relabeled induced subgraphs (positive), one-pair toggles and one-weight changes of those (near misses), degree-preserving 2-switches; predicates always-true / equality / asymmetric <=; every answer compared with exhaustive enumeration of injective maps, the iterator's output compared as a set with duplicate detection, and everything repeated after relabeling both arguments; non-trivial = both graphs >= 3 nodes and the answer not decided by the node/edge-count pre-checks; distinct by case fingerprint; bounded-exhaustive sub-check: every ordered pair of labelled digraphs on 1..=3 nodes and of undirected graphs on 1..=4 nodes (loops included)",
         assumptions: &["graphs are simple (the documented domain); the iterator is read with take(expected+3) so that a non-terminating iterator shows up as duplicates, not as a hang"],
         both_profiles: false,
-        subs: vec![sub("vf2/pairs", 2_400_000, 40_000_000, strategy, run)],
+        subs: vec![sub("vf2/pairs", 2_400_000, 40_000_000, strategy, run), sub_enum("vf2/all-pairs-of-small-graphs", enum_count, enum_make, run)],
     }
 }
